@@ -56,7 +56,7 @@ def grammar(rnd, n, numeric=False, with_unbounded=True, with_text=True):
     out = []
     pool = NUM_POOL if numeric else VALUE_POOL
     for k in range(n):
-        kind = k % 8
+        kind = k % 9
         iv = [rnd.choice(NUM_POOL) for _ in range(4)]
         if kind == 0:      # chain
             out.append(WB({'A1': iv[0]}, {'B1': '=A1+1', 'C1': '=B1*2', 'D1': '=C1-A1'}, 'chain'))
@@ -76,6 +76,10 @@ def grammar(rnd, n, numeric=False, with_unbounded=True, with_text=True):
             v = rnd.choice(pool)
             out.append(WB({'A1': v, 'A2': rnd.choice(pool)},
                           {'B1': '=A1&"x"', 'B2': '=IF(A1=A2,"same","diff")', 'B3': '=LEN(B1)+1'}, 'text'))
+        elif kind == 8:    # formula results that are blank-like: 0, FALSE, ""  (a stored "" is read back as no value)
+            out.append(WB({'A1': iv[0], 'A2': 0},
+                          {'H1': '=A2*5', 'H2': '=A2>1', 'H3': '=IF(A2=0,"","x")', 'B1': '=A1+H1',
+                           'B2': '=IF(H2,A1,A1+1)', 'B3': '=H3&A1'}, 'falsy-results'))
         elif kind == 6:    # two independent parts (one must not disturb the other)
             out.append(WB({'A1': iv[0], 'D1': iv[1]},
                           {'B1': '=A1+1', 'E1': '=D1*3', 'F1': '=E1+D1'}, 'independent'))
@@ -257,6 +261,34 @@ def histories(rnd, wb, n, length, pool=None):
                 h.append(('eval', rnd.choice(cells)))
         out.append(h)
     return out
+
+
+def directed_histories(rnd, wb, pool=None, limit=12):
+    """load-then-set-then-read: evaluate a formula cell (so that it and its precedents are in the model, with stored
+    results where the origin has them), change one input it depends on, read it again"""
+    pool = pool or VALUE_POOL
+    out = []
+    for f in wb.formulas:
+        for c in wb.inputs:
+            if c in depends_on_inverse(wb, f):
+                cands = [v for v in pool if v and not (isinstance(v, type(wb.inputs[c])) and v == wb.inputs[c])]
+                out.append([('eval', f), ('set', c, rnd.choice(cands)), ('eval', f)])
+    if len(out) > limit:
+        rnd.shuffle(out)
+    return out[:limit]
+
+
+def depends_on_inverse(wb, cell):
+    """the cells `cell` reads, transitively (itself included)"""
+    reads = direct_reads(wb)
+    seen, todo = set(), [cell]
+    while todo:
+        c = todo.pop()
+        if c in seen:
+            continue
+        seen.add(c)
+        todo.extend(reads.get(c, ()))
+    return seen
 
 
 def same(a, b):
